@@ -16,6 +16,20 @@ NOT_DECIDED = "Not decided: statements about sequences of operations as such (hi
 ASSUMPTIONS = ["requests handed to Subject come from an endpoint (request.source is Some)"]
 
 
+def pred_closure(prog, parent, idx):
+    """the matching predicate of a Subject method: the closure (wherever it is nested, whatever its index) that takes
+    a shared reference to an Observer and returns bool; falls back to the closure at the given index path"""
+    cands = []
+    for b in prog.bodies.values():
+        if b.get("promoted") or not b["path"].startswith(parent + "::{closure") or b["arg_count"] < 2:
+            continue
+        if prog.types[b["locals"][2]["ty"]]["s"].startswith("&observe::Observer<") and prog.types[b["locals"][0]["ty"]]["s"] == "bool":
+            cands.append(b)
+    if len(cands) == 1:
+        return cands[0]
+    return closure_body(prog, parent, list(idx))
+
+
 def run_method(prog, name, hooks=None, ret_closures=()):
     gargs = (("param", "Endpoint"),)
     body = find_body(prog, SUBJ + name)
@@ -27,7 +41,7 @@ def run_method(prog, name, hooks=None, ret_closures=()):
     args = subject_args(I, prog, body, st, gargs)
     results = {}
     for idx in ret_closures:
-        cb = closure_body(prog, SUBJ + name, list(idx))
+        cb = pred_closure(prog, SUBJ + name, idx)
         if cb is None:
             results[idx] = None
             continue
@@ -52,7 +66,7 @@ def predicate_rule(prog, rep, rule, method, idx, want_fields, n_eq, extra=None):
         rep.missing(rule, SUBJ + method)
         return
     I, res, results, body, args = out
-    cb = closure_body(prog, SUBJ + method, list(idx))
+    cb = pred_closure(prog, SUBJ + method, idx)
     if cb is None or results[idx] is None:
         rep.missing(rule, "matching closure of %s" % method)
         return
